@@ -441,7 +441,12 @@ def bad_u2(rng, base=None):
     w[1, 0] = np.nan
     yield "nan", "one NaN entry", w
     yield "wrong_shape", "4x4 unitary", haar(rng, 4)
-    yield "wrong_shape", "3x3 unitary", haar(rng, 3)
+    for _ in range(6):          # acceptance of an oversized unitary depends on which entries a branch happens to read
+        yield "wrong_shape", "3x3 unitary", haar(rng, 3)
+    w3 = haar(rng, 3)
+    yield "wrong_shape", "3x3 unitary with determinant 1", w3 / np.linalg.det(w3) ** (1 / 3)
+    yield "wrong_shape", "3x3 block diag(SU(2), 1)", np.block([[u / np.sqrt(np.linalg.det(u)), np.zeros((2, 1))], [np.zeros((1, 2)), np.ones((1, 1))]])
+    yield "wrong_shape", "3x3 real rotation", np.linalg.qr(rng.normal(size=(3, 3)))[0].astype(complex)
     yield "wrong_shape", "1x1 [[1]]", np.array([[1.0 + 0j]])
     yield "wrong_shape", "2x1 column", u[:, :1].copy()
     yield "wrong_shape", "1x2 row", u[:1, :].copy()
